@@ -876,7 +876,6 @@ class SigmaRegularExpression(SigmaType):
         Replace all occurrences of string part matching regular expression with placeholder.
         """
 
-
         def regexp_callback(
             placeholder: Placeholder,
         ) -> Iterator[str | SpecialChars | Placeholder | "SigmaString"]:
@@ -892,12 +891,10 @@ class SigmaRegularExpression(SigmaType):
 
         result = []
         for sigmastr in self.regexp.replace_placeholders(regexp_callback):
-            regexp = SigmaRegularExpression(str(sigmastr), self.flags)
-            if sigmastr.contains_placeholder():
-                # Placeholders handed back by the callback were printed as %name% above. They must
-                # stay placeholders to be replaced by a later transformation or refused in conversion.
-                regexp.insert_placeholders()
-            result.append(regexp)
+            # The resulting string is used as it is. Printing and parsing it again would turn an
+            # escaped percent sign pair next to a placeholder that was handed back by the callback
+            # into a placeholder.
+            result.append(SigmaRegularExpression(sigmastr, self.flags))
         return result
 
 
